@@ -1,8 +1,13 @@
 package props
 
 import (
+	"sync"
+	"time"
+
 	"fmt"
+	"github.com/RoaringBitmap/roaring/v2"
 	"sort"
+	"verifmc/internal/ev"
 
 	"verifmc/internal/model"
 	"verifmc/internal/shapes"
@@ -55,6 +60,7 @@ func mixedPool(quick bool) []recipe {
 // serialisation / transform properties are checked exhaustively.
 func corpus32(quick bool) []recipe {
 	var rs []recipe
+	rs = append(rs, closureCorpus(quick)...)
 	rs = append(rs, l1Pool(1, quick)...)
 	rs = append(rs, l1Pool(0xFFFF, true)...)
 	rs = append(rs, mixedPool(quick)...)
@@ -143,3 +149,75 @@ func runEdges(m *model.Set32, n int) [][2]uint32 {
 }
 
 func descr(r recipe) string { return fmt.Sprint(r.Name) }
+
+// closureCorpus: states reached by the one-chunk mutation closure (C02's S1fix alphabet at key 1),
+// one witness history per representation class (chunk kind, cardinality class, run-count class,
+// copy-on-write flag). These are states only *histories* produce, e.g. a full chunk still held as
+// a bitmap container, or a run chunk one value away from the array threshold.
+var closureCache = map[bool][]recipe{}
+var closureMu sync.Mutex
+
+func closureCorpus(quick bool) []recipe {
+	closureMu.Lock()
+	defer closureMu.Unlock()
+	if rs, ok := closureCache[quick]; ok {
+		return rs
+	}
+	ops := s1FixOps(1)
+	classes := map[string][]string{}
+	var order []string
+	b := bfs32("closure corpus", ops, 0)
+	if quick {
+		b.MaxDepth = 5
+	}
+	b.Deadline = time.Now().Add(60 * time.Second)
+	b.Visit = func(w *W32, path []string) {
+		v := roaring.VerifViewOf(w.B)
+		cls := "empty"
+		if len(v.Chunks) == 1 {
+			ch := v.Chunks[0]
+			card := int(w.M.Card())
+			cc := "mid"
+			switch {
+			case card == 1:
+				cc = "1"
+			case card <= 64:
+				cc = "<=64"
+			case card == 4095, card == 4096, card == 4097, card == 65535, card == 65536:
+				cc = fmt.Sprint(card)
+			case card <= 4096:
+				cc = "<=4096"
+			}
+			runs := len(runsOf(w.M))
+			rc := "many"
+			if runs <= 3 {
+				rc = fmt.Sprint(runs)
+			}
+			cls = fmt.Sprintf("k%d/%s/runs%s/cow%v/%v", ch.Kind, cc, rc, ch.COW, v.COW)
+		}
+		if _, ok := classes[cls]; !ok {
+			classes[cls] = append([]string(nil), path...)
+			order = append(order, cls)
+		}
+	}
+	silent := ev.NewRun("corpus", "quick", "model_checking", 0)
+	silent.Quiet = true
+	b.Run(silent)
+	idx := map[string]int{}
+	for i, o := range ops {
+		idx[o.Name] = i
+	}
+	var rs []recipe
+	for _, cls := range order {
+		path := classes[cls]
+		rs = append(rs, recipe{Name: fmt.Sprintf("{history %v}", path), Build: func() *shapes.Built {
+			w := newW32()
+			for _, n := range path {
+				ops[idx[n]].F(w)
+			}
+			return &shapes.Built{B: w.B, M: w.M}
+		}})
+	}
+	closureCache[quick] = rs
+	return rs
+}
